@@ -20,7 +20,7 @@ func init() {
 		Explanation: "Decides that a failing pipeline cannot be destructive and that garbage collection is exact, as shapes of the code: (R3.1) in FunctionComposer.Compose no API effect (write, GC, field-manager upgrade) can precede a RunFunction call on any path and none sits inside the pipeline loop, so every return taken from the loop happens with zero writes; " +
 			"(R3.2) the severity switch names every fnv1.Severity constant and its FATAL arm returns a non-nil error; (R3.3) the requirements loop is bounded by a constant, returns a response only on the requirements-equal or fatal edge, and the fall-through returns (nil, error); " +
 			"(R3.4) the pipeline GC deletes only observed entries whose name is absent from desired, refuses foreign controllers, and no non-error return or skip exists inside its delete loop; (R3.5) the P&T associator deletes only references whose annotation names no template; " +
-			"(R3.6) these two are the only delete sites on composed resources in the package; (R3.7) observation fails closed (shared with R1.7). R3.4 also requires that no success return precedes the scan of observed unless observed is empty. R3.0 extends over the function runners behind the FunctionRunner interface: a response is used only where the call's error is known to be nil. (R3.9) the stamp rules of R1.8 also hold here: a still-desired resource never keeps a stale composition-resource-name.",
+			"(R3.6) these two are the only delete sites on composed resources in the package; (R3.7) observation fails closed (shared with R1.7). R3.4 also requires that no success return precedes the scan of observed unless observed is empty. R3.0 extends over the function runners behind the FunctionRunner interface: a response is used only where the call's error is known to be nil. (R3.9) the stamp rules of R1.8 also hold here: a still-desired resource never keeps a stale composition-resource-name. R3.8 also requires that the P&T composer stamps an anonymous template with the empty name.",
 		NotDecided:  []string{"that `observed` equals 'previously composed by this XR' (depends on API contents)", "transient deletes caused by the API server", "behaviour of functions", "effects of connection-details fetchers and secret reads before the pipeline (reads only)"},
 		Assumptions: []string{"FunctionRunner.RunFunction implementations do not write composed resources", "client.Reader calls have no effect"},
 	})
